@@ -94,6 +94,12 @@ def base_pipeline(pid, tier, seed, module, body):
     """Common steps 1, 2, 5 around a property's own K1/K2 body."""
     out = Outcome(pid, tier, seed)
     ctx = Ctx(pid, tier, seed, out)
+    # checks of different properties may run at the same time: the shared preparation (harness build, translator, lake
+    # build and axiom audit in the one Lean package) is done by one process at a time
+    import fcntl
+    os.makedirs(runner.BUILD, exist_ok=True)
+    prep_lock = open(os.path.join(runner.BUILD, ".prep.lock"), "w")
+    fcntl.flock(prep_lock, fcntl.LOCK_EX)
     ok, log = runner.build_harness()
     if not ok:
         ctx.broken.append(("harness build against /repo", log[-1500:]))
@@ -118,6 +124,8 @@ def base_pipeline(pid, tier, seed, module, body):
             ctx.broken.append(("axiom audit of " + module, alog[-1500:]))
     else:
         ctx.broken.append(("lake build %s (proof obligations)" % module, errlines(logp)))
+    fcntl.flock(prep_lock, fcntl.LOCK_UN)
+    prep_lock.close()
     hits = runner.forbidden_scan()
     if hits:
         ctx.broken.append(("forbidden constructs in Lean sources", hits))
@@ -311,9 +319,26 @@ def body_C05(ctx):
                 st[0].mode = "init" if fc[1] == 0 else "andThen"
                 st[0].out = ("fail", 7 + fc[0])
                 progs.append(p)
+    # two failures in the same step (every pair of branches active in it, the last step and earlier ones): the failure of the
+    # lower-numbered branch is the one returned, unchanged
+    pair_profiles = [(1, 1), (2, 2), (1, 1, 1), (2, 1, 2), (2, 2, 2), (1, 2, 2), (3, 3, 1)] if ctx.quick() else \
+        [pr for nb in (2, 3, 4) for pr in __import__("itertools").product((1, 2, 3), repeat=nb)][::2]
+    for prof in pair_profiles:
+        for k in range(max(prof)):
+            act = [b for b in range(len(prof)) if prof[b] > k]
+            for x in range(len(act)):
+                for y in range(x + 1, len(act)):
+                    kind = ("a0t1s0", "a0t1s1")[i % 2]
+                    p = k2.gen_scaffold(ctx.rng, "d%d" % i, kind, profile=prof, fail_rate=(0, 1), block_rate=(0, 1), handler_rate=(1, 3))
+                    i += 1
+                    for b in (act[x], act[y]):
+                        st = p.steps(b)[k]
+                        st[0].mode = "init" if k == 0 else "andThen"
+                        st[0].out = ("fail", 20 + b)
+                    progs.append(p)
     run_k2(ctx, progs)
     ctx.out.coverage["rule"] = ("try macros (sequential and thread-spawning): random instrumented programs with failure rate 1/4 over "
-                                "differing depth profiles + every single-failure placement over the listed profiles; compiled with the "
+                                "differing depth profiles + every single-failure placement and every pair of failures in one step over the listed profiles; compiled with the "
                                 "real macros and compared (value, event order, thread names) with the Lean reference semantics and with "
                                 "the semantics of the model's generated code; distinct = program text with numbers erased")
 
@@ -331,6 +356,10 @@ INVALID = [
     ("a ^@ >>> x, y", ">>> after a non-wrapper operator"), ("a =>[] >>> |> f", ">>> after a non-wrapper operator"),
     ("a |n> >>> |> f", ">>> after a non-wrapper operator"), ("a <| >>> b", ">>> after a non-wrapper operator"),
     ("a <<< >>>", ">>> combined with <<<"), ("a |> >>> <<< >>> |> f", ">>> combined with <<<"),
+    # an operator between an operand of a multi-operand operator and the comma that separates it from the next operand
+    ("a ^@ x <<< , f", "<<< without >>> (between the operands of `^@`)"), ("a ^@ x |> , f", "operator without operand in front of `,`"),
+    ("a ^@ x ~=> >>> , f", "operator in front of the `,` between two operands"), ("a ?^@ x <| , f", "operator in front of the `,` between two operands"),
+    ("a <-> A, B |> , C, D", "operator in front of the `,` between two operands"), ("a |> >>> ^@ x <<< , f <<<", "<<< between the operands of `^@`"),
     ("let (a, b) = x", "non-identifier let pattern"), ("let Some(a) = x |> f", "non-identifier let pattern"),
     ("let _ = x, y", "non-identifier let pattern"), ("a, let (p, q) = b ~|> f", "non-identifier let pattern"),
 ]
@@ -606,6 +635,38 @@ def body_C11(ctx):
     items = [(ctx.rng.pick(G.KINDS), s, "operators") for s in G.fam_operators() if "{" in s]
     items += [(ctx.rng.pick(G.KINDS), s, "wrappers") for s in G.fam_wrappers() if "{" in s]
     ctx.k1(mk_cases(items))
+    # hoisted definitions and `lazy_branches(true)` / `custom_joiner`: the block operands of a step are evaluated before the step's
+    # expressions whatever the joiner does with the branches - no `let __ew… = {…}` inside what is handed to the joiner
+    litems = [(k, "custom_joiner(jn!) lazy_branches(%s) %s" % (lz, src), "lazy-blocks")
+              for k in G.KINDS for lz in ("true", "false")
+              for src in ("{ b0 } |> { f0 }, { b1 } ~|> { f1 } ^@ { i1 }, { g1 }, c ~<| { h2 }",
+                          "a |> { f0 } => >>> |> { g0 } <<<, b ~=> { f1 }, { c0 } ~|> { f2 }",
+                          "{ b0 }, { b1 }", "a ~|> { f0 }, b ~|> { f1 } ~|> { f2 }, c")]
+    lreals, _ = ctx.k1(mk_cases(litems, start=400000))
+    for r in lreals:
+        if r.parse != "ok" or r.gen != "ok":
+            continue
+        w = k1.unspace(r.out).split(" ")
+        bad = False
+        for i in range(len(w) - 2):
+            if w[i] == "i:jn" and w[i + 1].startswith("p:!") and w[i + 2] == "(":
+                depth, j = 0, i + 2
+                while j < len(w):
+                    if w[j] in ("(", "{", "[", "N("):
+                        depth += 1
+                    elif w[j] in (")", "}", "]", ")N"):
+                        depth -= 1
+                        if depth == 0:
+                            break
+                    elif w[j] == "i:let" and j + 1 < len(w) and re.fullmatch(r"i:__ew\d+_\d+_\d+", w[j + 1]):
+                        bad = True
+                    j += 1
+        if bad:
+            ctx.out.violation({"macro_kind": r.kind, "source": r.src,
+                               "what": "a hoisted block operand is defined inside what is handed to the joiner (evaluated when, where and as "
+                                       "often as the joiner calls the branch) instead of before the step's expressions"},
+                              found_input=True, signature="defs-inside-joiner")
+            break
     # typed chains against the plain method chain with the blocks bound first, in operand order: every operator with a block
     # operand, both operands of fold / try_fold as blocks (each alone and together, in a later step, inside a wrapper)
     run_chains(ctx, ctx.n(40, 600), (1, 6), "C11")
@@ -678,7 +739,7 @@ def run_chains(ctx, n, wrappers, tag):
     res, log = k2.run_chain_programs(ctx, progs)
     if res is None:
         ctx.broken.append(("K2-chains programs do not compile against the current macros (a well-typed chain must compile)", log[-3000:]))
-        src = open(os.path.join(k2.K2DIR, "k2chains", "src", "main.rs")).read()
+        src = k2.LAST_CHAIN_SRC
         pid, excerpt = k2.blame_compile_error(src, log)
         culprit = next((p for p in progs if p.pid == pid), None)
         if culprit is not None:
